@@ -13,7 +13,7 @@ from .. import directed
 from .. import universe as U
 from ..build import build
 from ..cases import case_rng, program_for
-from ..gen import spec_hash
+from ..gen import mentioned_keys, spec_hash
 from ..outcome import canon, observe, short
 from ..ref import Ref, kinds_of
 
@@ -131,6 +131,48 @@ def collection_order(ctx, rng):
         ctx.violation("collection-order", f"dict order {list(got.items())} != {list(zip(keys, items))}", {"keys": keys, "items": items})
 
 
+def hostile_history(ctx, program, base, r, case, tag="random"):
+    """One long-lived instance (caching off, so only per-object memos / aliasing / leftover state can interfere) driven
+    through a hostile history (lvf.hostile): each outcome must equal the eager reference on a private copy of the
+    dictionary as it is at that moment.  Bodies and steps edit their own arguments in place, the driver scribbles over
+    every returned value."""
+    from .. import hostile
+    from ..outcome import err_outcome
+
+    G = build(program, mutate_args=True)
+    keys = sorted(k for k in mentioned_keys(program) if k in U.READ_KEYS)
+    lenient = "coalesce" in kinds_of(program)
+    trail = []
+    for label, obj in hostile.steps(r, base, keys):
+        snap = copy.deepcopy(obj)
+        trail.append([label, snap])
+        try:
+            exp = Ref(program).run(copy.deepcopy(snap))
+        except RecursionError:
+            return
+        raw = None
+        try:
+            with labrea.cache.disabled():
+                raw = G.root.evaluate(obj)
+                got = ("ok", canon(raw))
+        except RecursionError:
+            return
+        except Exception as e:  # noqa: BLE001
+            got = err_outcome(e)
+        ctx.evaluations += 1
+        ctx.count("hostile_steps")
+        ctx.count("hostile_" + label.split(" ")[0].replace("-", "_"))
+        ok = got[0] == exp[0] and (got[1] == exp[1] if got[0] == "ok" else (got[1] == exp[1] or lenient))
+        if not ok:
+            ctx.violation("hostile-history", f"step {len(trail)} ({label}) on one long-lived instance: evaluate() = {short(got)} but the eager reference on a copy of that dictionary yields {short(exp)}",
+                          {"family": "hostile", "program": program, "base": base, "case": case, "shard": ctx.shard, "shards": ctx.shards, "trail": trail[-3:], "source": tag})
+            return
+        if raw is not None:
+            hostile.scribble(raw)
+    if len(trail) > 2:
+        ctx.nontrivial(spec_hash(["hostile", program, base, case]))
+
+
 def run(ctx):
     rng = ctx.rng
     dicts = directed.dictionaries()
@@ -156,9 +198,13 @@ def run(ctx):
         if i % 10 == 0:
             map_semantics(ctx, r)
             collection_order(ctx, r)
+        hostile_history(ctx, program, U.random_options(r, p_present=0.75), case_rng(ctx, ("hostile", i)), i)
 
 
 def replay(ctx, rep):
     w = rep["witness"]
-    if "program" in w and "options" in w:
+    if w.get("family") == "hostile":
+        ctx.shard, ctx.shards = w.get("shard", 0), w.get("shards", 1)
+        hostile_history(ctx, w["program"], w["base"], case_rng(ctx, ("hostile", w["case"])), w["case"], "replay")
+    elif "program" in w and "options" in w:
         compare(ctx, w["program"], w["options"], tag="replay")
